@@ -3,6 +3,7 @@ package props
 // C12 — BufferedWriteSyncer delivers every byte once, in order, in whole writes.
 
 import (
+	"io"
 	"bytes"
 	"encoding/json"
 	"fmt"
@@ -182,6 +183,7 @@ func propC12Sequential(t *rapid.T) {
 			}
 		}
 	}
+	viaString := false
 	doWrite := func(n int) {
 		p := c12Payload(len(accepted), n)
 		total, _, _, _ := sink.state()
@@ -193,7 +195,13 @@ func propC12Sequential(t *rapid.T) {
 			sawLarge = true
 		}
 		cp := append([]byte(nil), p...)
-		k, err := bws.Write(cp)
+		var k int
+		var err error
+		if viaString {
+			k, err = io.WriteString(bws, string(cp)) // the standard library's string path must behave like Write
+		} else {
+			k, err = bws.Write(cp)
+		}
 		for i := range cp {
 			cp[i] = '#' // the caller may reuse its slice
 		}
@@ -218,6 +226,11 @@ func propC12Sequential(t *rapid.T) {
 			doWrite(n)
 		},
 		"write2": func(rt *rapid.T) { doWrite(rapid.IntRange(0, size+3).Draw(rt, "len")) },
+		"writeString": func(rt *rapid.T) {
+			viaString = true
+			doWrite(rapid.SampledFrom([]int{1, size - 1, size, size + 1, 2*size + 1, 3 * size}).Draw(rt, "len"))
+			viaString = false
+		},
 		"elapse": func(rt *rapid.T) {
 			// time passes between operations: a fraction of the flush interval
 			iv := bws.FlushInterval
